@@ -53,6 +53,9 @@ def _run_one(args):
         try:
             src = overlay.get(f) or open(p, encoding="utf-8").read()
         except FileNotFoundError:
+            if o == "":
+                overlay[f] = n  # the variant adds a module
+                continue
             return v.id, "stale", f"file {f} missing"
         out = apply_edit(src, o, n, occ)
         if out is None:
